@@ -51,6 +51,20 @@ impl COracle for ExchangeOracle {
         }
         let un = pp::Client::unblind(&e.output, x.r);
         // finalise into the REUSED buffer (it still holds the previous request's output)
+        if ctx.ch.chance(1, 8) {
+            // API misuse right before the valid call: an output buffer of the wrong length, for some other
+            // input. The documented reaction is a panic; the caller survives it and finalises properly.
+            let len = *ctx.ch.pick(&[0usize, 16, 31, 33, 64]);
+            let mut wrong = vec![0u8; len];
+            let other_input = [x.input, &b"-refused"[..]].concat();
+            let md = x.md;
+            let un2 = un.clone();
+            let refused = crate::runner::guarded(move || pp::Client::finalize(&other_input, md, &un2, &mut wrong)).is_err();
+            ctx.stats.fault("wrong_length_finalize_buffer");
+            if refused {
+                ctx.stats.probe("wrong_length_finalize_refused_then_valid_call");
+            }
+        }
         pp::Client::finalize(x.input, x.md, &un, &mut self.out_buf);
         let out = self.out_buf;
         if !self.check_c12 {
